@@ -138,7 +138,7 @@ class LFK:
         ob = Ob("%s: %s" % (self.label, name), r, time.time() - t0, [self.fname], "Int-LF",
                 detail="; ".join("%s=%s" % (q[0].split("/")[-1], q[1]) for q in dom.queries[n0:]), model=model)
         self.chk.add(ob)
-        if r == "sat":
+        if r != "unsat":
             self.sat_obs.append(ob)
         return ob
 
@@ -155,7 +155,7 @@ class LFK:
             except Exception as e:
                 self.chk.note_inconclusive("replay of %s failed: %r" % (self.label, e))
         for o in self.sat_obs:
-            o.verdict = "violated" if hit else "sat-unreplayed"
+            o.verdict = "violated" if hit else ("sat-unreplayed" if o.verdict == "sat" else o.verdict)
         if hit:
             self.chk.violation(site, "%s: %s" % (self.label, hit["what"]), hit)
 
@@ -493,6 +493,10 @@ def scalar_replayer(op, names, spec, nin=None):
         specials = [0, 1, 2, L - 1, L - 2, (L - 1) // 2, (L + 1) // 2, 2**252, 2**252 - 1, 2**64 - 1, 2**64, 2**128, 2**192, R256 % L, (R256 * R256) % L, L - (R256 % L)]
         for i in range(80):
             cands.append({nm: rng.choice(specials) if rng.random() < 0.5 else rng.randrange(L) for nm in names})
+        from . import ptreplay
+        ms = ptreplay.montgomery_structured(2000)
+        for i, a_ in enumerate(ms):
+            cands.append({nm: (a_ if j == 0 else ms[(i * 7 + 3 * j) % len(ms)]) for j, nm in enumerate(names)})
         ops = [{"op": op, "args": ["out"] + names, "init": dict({nm: "w:" + ",".join(str((c[nm] >> (64 * i)) & (2**64 - 1)) for i in range(4)) for nm in names}, out="w:7,7,7,7")} for c in cands]
         res = native.run_ops("", ops)
         for c, r in zip(cands, res):
